@@ -30,6 +30,14 @@ impl Progress {
   pub fn get(&self) -> u64 {
     unsafe { std::ptr::read_volatile(self.ptr) }
   }
+  /// number of cases this worker process has completed (second word of the file)
+  #[inline]
+  pub fn set_done(&self, n: u64) {
+    unsafe { std::ptr::write_volatile(self.ptr.add(1), n) }
+  }
+  pub fn get_done(&self) -> u64 {
+    unsafe { std::ptr::read_volatile(self.ptr.add(1)) }
+  }
 }
 
 /// Limits the address space of the calling (child) process so that a runaway allocation becomes an
@@ -93,12 +101,15 @@ pub fn drive(exe: &str, args: &[String], nshards: u64, total: u64, stall: Durati
   }
   let mut outcomes: Vec<Outcome> = vec![];
   let mut machinery: Vec<String> = vec![];
+  // cases completed by workers that died or were killed (their own count never reaches the result file)
+  let mut done_by_dead = 0u64;
   let spawn = |shard: u64, start: u64, restarts: u32| -> Slot {
     let ppath = format!("{}/{}_{}.progress", dir, tag, shard);
     let rpath = format!("{}/{}_{}_{}.results", dir, tag, shard, restarts);
     let _ = std::fs::remove_file(&rpath);
     let progress = Progress::open(&ppath);
     progress.set(u64::MAX);
+    progress.set_done(0);
     let child = Command::new(exe)
       .args(args)
       .arg(shard.to_string())
@@ -145,6 +156,7 @@ pub fn drive(exe: &str, args: &[String], nshards: u64, total: u64, stall: Durati
                   None => format!("exit status {:?}", status.code()),
                 };
                 outcomes.push(Outcome { kind: "death".into(), idx, detail, case: J::Null });
+                done_by_dead += slot.progress.get_done() + 1;
                 if slot.restarts > 200 {
                   machinery.push(format!("worker {} shard {} restarted more than 200 times", tag, slot.shard));
                   replace = Some(None);
@@ -166,6 +178,7 @@ pub fn drive(exe: &str, args: &[String], nshards: u64, total: u64, stall: Durati
               let _ = slot.child.kill();
               let _ = slot.child.wait();
               outcomes.push(Outcome { kind: "hang".into(), idx, detail: format!("no progress for {:?}", stall), case: J::Null });
+              done_by_dead += slot.progress.get_done() + 1;
               let s = spawn(slot.shard, idx + 1, slot.restarts + 1);
               result_files.push(s.results.clone());
               replace = Some(Some(s));
@@ -192,7 +205,7 @@ pub fn drive(exe: &str, args: &[String], nshards: u64, total: u64, stall: Durati
     std::thread::sleep(Duration::from_millis(20));
   }
   // collect results
-  let mut done = 0u64;
+  let mut done = done_by_dead;
   for rp in &result_files {
     if let Ok(text) = std::fs::read_to_string(rp) {
       for line in text.lines() {
